@@ -1376,14 +1376,6 @@ func makeStructArshaler(t reflect.Type) *arshaler {
 				if uo.Unmarshalers != nil {
 					unmarshal, _ = uo.Unmarshalers.(*Unmarshalers).lookup(unmarshal, f.typ)
 				}
-				flagsOriginal := uo.Flags
-				if f.string {
-					uo.Flags.Set(jsonflags.StringTag | 1)
-				}
-				if f.format != "" {
-					uo.Flags.Set(jsonflags.FormatTag | 1)
-					uo.Format = f.format
-				}
 				v := addressableValue{va.Field(f.index0), va.forcedAddr} // addressable if struct value is addressable
 				if len(f.index) > 0 {
 					v = v.fieldByIndex(f.index, true)
@@ -1397,6 +1389,14 @@ func makeStructArshaler(t reflect.Type) *arshaler {
 							return dec.SkipValue()
 						}
 					}
+				}
+				flagsOriginal := uo.Flags
+				if f.string {
+					uo.Flags.Set(jsonflags.StringTag | 1)
+				}
+				if f.format != "" {
+					uo.Flags.Set(jsonflags.FormatTag | 1)
+					uo.Format = f.format
 				}
 				err = unmarshal(dec, v, uo)
 				uo.Flags = flagsOriginal
